@@ -275,6 +275,8 @@ def setup_frame(E):
     r = E.await_value(E.call(E.getattr(E.lookup(BASE), 'connect'), [sock]))
     E.cover('connected')
     E.prove('setup:exactly_one_frame_through_the_priority_path', len(sent) == 1 and is_frame(sent[0], 'SetupFrame') and r is sock)
+    if len(sent) != 1:
+        return
     f = sent[0]
     P = E.prove
     P('setup:protocol_version_1_0', E.getattr(f, 'major_version') == 1 and E.getattr(f, 'minor_version') == 0)
@@ -337,9 +339,11 @@ def setup_first(E):
     E.await_value(E.call(E.getattr(sock, 'connect'), []))
     E.cover('connected')
     q = sock.attrs['_send_queue'].attrs['_queue']
-    E.prove('connect:SETUP_queued_exactly_once_at_the_head', len([x for x in q if is_frame(x, 'SetupFrame')]) == 1 and is_frame(q[0], 'SetupFrame'))
+    E.prove('connect:SETUP_queued_exactly_once_at_the_head', len([x for x in q if is_frame(x, 'SetupFrame')]) == 1 and len(q) >= 1
+            and is_frame(q[0], 'SetupFrame'))
     E.prove('connect:requests_issued_while_connecting_are_kept_behind_SETUP_in_order',
-            [x.ident for x in q[1:]] == (['early-request', 'request-during-connect'] if suspends_connect else ['early-request']))
+            [x.ident for x in q if isinstance(x, SOpaque)] == (['early-request', 'request-during-connect'] if suspends_connect else ['early-request'])
+            and len(q) >= 1 and not isinstance(q[0], SOpaque))
     E.prove('connect:at_every_suspension_transport_resolved_implies_SETUP_queued[%s]' % ('transport.connect() suspends' if suspends_connect else 'transport.connect() does not suspend'),
             state['violated'] is None)
     E.prove('connect:transport_future_resolved_with_the_provided_transport', nt.attrs['state'] == 'result' and nt.attrs['value'] is transport)
@@ -548,3 +552,45 @@ def receiver_exit(E):
     E.prove('receiver:eof_transport_error_and_cancellation_all_run_the_clean_up', how in (0, 1, 2))
     E.prove('receiver:clean_up_once_in_order[fail pending, notify application, stop sending]', order == ['stop_all_streams', 'on_close', 'stop_tasks'])
     E.prove('receiver:close_notification_exactly_once_with_the_socket', len(log.of(app, 'on_close')) == 1 and log.of(app, 'on_close')[0][2][0] is sock)
+
+
+SND = BASE + '._sender'
+
+
+@harness('c11.sender_exit', ['C11'], functions=[SND, CLIENT + '._finally_sender'],
+         assumptions=['Transport.send_frame is abstract and may raise RSocketTransportError (wrapped transport failure); '
+                      'the connection-closed clean-up belongs to the receiver (c11.receiver_exit): the sender must not run it a second time'])
+def sender_exit(E):
+    sock, table, ctable = mk_endpoint(E, symbolic_queue=False)
+    E.import_module('asyncio')
+    q = E.call(E.lookup('rsocket/queue_peekable.py::QueuePeekable'), [])
+    sock.attrs['_send_queue'] = q
+    E.call(E.getattr(q, 'put_nowait'), [SOpaque('frame', 'f1', attrs={'sent_future': None}, props={'isinstance:FrameFragmentMixin': False})])
+    transport = SOpaque('transport', 'transport')
+    tf = aio.new_future(E, 'result', transport)
+    E.stubs[SERVER + '._current_transport'] = lambda E_, f, a, k: tf
+    how = E.path.choice(3, 'write-outcome')
+    terr = E.make_exc(E.lookup('rsocket/exceptions.py::RSocketTransportError'))
+    order = []
+
+    def send(E_, o, m, a, k):
+        if how == 1:
+            raise PyExc(terr)
+        if how == 2:
+            E_.throw('CancelledError')
+        return aio.Awaitable('ready')
+    log = OpaqueLog(E, returns={'send_frame': send, 'on_send_queue_empty': lambda *a: aio.Awaitable('ready'),
+                                'on_close': lambda *a: (order.append('on_close'), aio.Awaitable('ready'))[1]})
+    alive = [True, False]
+    E.stubs[SERVER + '.is_server_alive'] = lambda E_, f, a, k: alive.pop(0) if alive else False
+    E.stubs[BASE + '.stop_all_streams'] = lambda E_, f, a, k: order.append('stop_all_streams')
+    E.stubs[BASE + '._stop_tasks'] = lambda E_, f, a, k: (order.append('stop_tasks'), aio.Awaitable('ready'))[1]
+    E.stubs[SERVER + '._finally_sender'] = lambda E_, f, a, k: (order.append('finally_sender'), aio.Awaitable('ready'))[1]
+    E.stubs[BASE + '._finally_sender'] = E.stubs[SERVER + '._finally_sender']
+    try:
+        E.await_value(E.call(E.getattr(sock, '_sender'), []))
+    except PyExc as e:
+        E.prove('sender:transport_errors_and_cancellation_are_absorbed', False)
+        return
+    E.cover('sender-ended')
+    E.prove('sender:only_its_own_finaliser_runs[close notification and stream clean-up are the receiver\'s job, once]', order == ['finally_sender'])
